@@ -208,6 +208,32 @@ def impl_extract(case, binf, size, n_jobs, out):
 FILES = ("waveforms.traces.npy", "waveforms.table.pqt", "waveforms.channels.npz", "waveforms.templates.npy")
 
 
+def folder_state(d):
+    """Names and content of the files directly inside a session folder."""
+    return {p.name: hashlib.sha256(p.read_bytes()).hexdigest() for p in sorted(Path(d).iterdir()) if p.is_file()}
+
+
+def folder_changes(before, d, scratch=None):
+    """The session folder must hold exactly the files it held before the extraction (names and bytes);
+    a scratch directory must not keep a decompressed .bin / .meta."""
+    after = folder_state(d)
+    bad = []
+    gone = sorted(set(before) - set(after))
+    new = sorted(set(after) - set(before))
+    changed = sorted(k for k in before if k in after and before[k] != after[k])
+    if gone:
+        bad.append("deleted %s from the session folder" % gone)
+    if new:
+        bad.append("left %s behind in the session folder" % new)
+    if changed:
+        bad.append("modified %s in the session folder" % changed)
+    if scratch and Path(scratch).exists():
+        left = sorted(p.name for p in Path(scratch).iterdir())
+        if left:
+            bad.append("left %s behind in the scratch directory" % left)
+    return bad
+
+
 def file_hashes(out):
     return [hashlib.sha256((Path(out) / f).read_bytes()).hexdigest() if (Path(out) / f).exists() else None for f in FILES]
 
@@ -880,7 +906,10 @@ def run_case(ctx, case, work, jobs_for, inputs, outputs, descs, stats):
         # every 4th recording writes into one output directory shared by all of them (never cleaned):
         # stale files of an earlier extraction must not leak into a later one
         outdir = (Path(work) / "shared_out") if case["id"] % 4 == 1 else d / ("o%d" % k)
+        before = folder_state(d)
         obs = impl_extract(case, binf, size, n_jobs, outdir)
+        for w in folder_changes(before, d):
+            ctx.fail("extract_wfs_cbin (.bin input) %s" % w, desc, {"kind": "inputs", "class": "session_folder"})
         nrun += 1
         stats["n_jobs"][n_jobs] = stats["n_jobs"].get(n_jobs, 0) + 1
         nchunks = -(-ns // size)
@@ -1053,6 +1082,7 @@ def gen_pp_cases(rng, cid0, thorough):
             c["labels"], c["indices"] = None, None
         c["malformed"] = steps is not None and ("bogus" in steps or ("car" in steps and "kfilt" in steps))
         c["wfs_dtype"] = "float64" if j == 0 else None       # documented parameter (has no effect on the file)
+        c["scratch"] = "dir" if j in (1, 4) else None         # scratch_dir with an uncompressed input: must stay unused
         c["pp"] = True
         out.append(c)
     return out
@@ -1095,11 +1125,11 @@ def run_pp_case(ctx, case, work, n_jobs, inputs, outputs, descs, stats):
         if case.get("cbin"):
             with open(os.devnull, "w") as dn, contextlib.redirect_stderr(dn):
                 binf, data, case["geom"] = make_cbin(case, d)
-            before = sorted(p.name for p in d.iterdir())
-            if case["scratch"]:
-                case["scratch"] = str(d / "scratch")
         else:
             binf, data = make_recording(case, d)
+        if case.get("scratch"):
+            case["scratch"] = str(d / "scratch")
+        before = folder_state(d)
         size = case["sizes"][0]
         desc = case_desc(case, size, n_jobs)
         for k in ("steps", "chan_labels", "float_seed", "shift", "wfs_dtype", "cbin", "scratch", "pp", "id", "reader_kwargs"):
@@ -1131,16 +1161,10 @@ def run_pp_case(ctx, case, work, n_jobs, inputs, outputs, descs, stats):
                     ctx.fail("waveforms.traces.npy has dtype %s" % obs["traces"].dtype, desc, {"kind": "shape", "class": "preprocess"})
             except Exception as e:  # noqa
                 ctx.fail("output files cannot be interpreted (%s)" % err_text(e), desc, {"kind": "malformed_output"})
-        if case.get("cbin"):
-            after = sorted(p.name for p in d.iterdir())
-            gone = [f for f in before if f not in after]
-            left = [f for f in after if f not in before and f not in ("out", "scratch")] + \
-                ([p.name for p in (d / "scratch").iterdir()] if (d / "scratch").exists() else [])
-            if gone:
-                ctx.fail("extract_wfs_cbin on a .cbin deleted %s of the session (scratch_dir=%s)" % (gone, case["scratch"]), desc,
-                         {"kind": "inputs", "class": "session_file_deleted" if not case["scratch"] else "deleted_with_scratch"})
-            if left:
-                ctx.fail("extract_wfs_cbin left its decompressed copy behind: %s" % left, desc, {"kind": "inputs", "class": "scratch_left"})
+        for w in folder_changes(before, d, case.get("scratch")):
+            ctx.fail("extract_wfs_cbin (%s input, scratch_dir %s) %s" % (".cbin" if case.get("cbin") else ".bin",
+                                                                         "given" if case.get("scratch") else "None", w),
+                     desc, {"kind": "inputs", "class": "session_folder"})
         try:
             enc_o, enc_i = enc_obs_plan(case, size, obs), enc_inp_plan(case, size, obs["picks"])
         except Exception as e:  # noqa
